@@ -25,6 +25,8 @@ func main() {
 	oneexec := flag.String("oneexec", "", "run one execution of an inner phase body (internal)")
 	choices := flag.String("choices", "", "choice prefix for -oneexec / -lone")
 	lone := flag.String("lone", "", "run one execution of this phase alone (internal)")
+	bfs := flag.Bool("bfs", false, "-lone: the execution is a transition of an explicit-state search (internal)")
+	bfsInit := flag.String("bfs-init", "", "-lone -bfs: initial state (internal)")
 	flag.Parse()
 	if *oneexec != "" {
 		var ch []int
@@ -37,7 +39,7 @@ func main() {
 		os.Exit(c19.RunOneExec(*oneexec, *tier, ch))
 	}
 	if *lone != "" {
-		os.Exit(engine.RunLoneExecution(*prop, *tier, *lone, *choices))
+		os.Exit(engine.RunLone(*prop, *tier, *lone, *choices, *bfsInit, *bfs))
 	}
 	if *replay != "" {
 		os.Exit(engine.RunReplay(*replay))
